@@ -85,6 +85,48 @@ class Module:
         self.imports: dict[str, str] = {}  # local name -> dotted target (module-level)
         self._const_nodes: dict[str, list[ast.AST]] = {}
         self._index()
+        # helpers that did not exist when the rules were confirmed (octacheck/known_functions.json) are read in place:
+        # an "extract method" refactoring then shows the rules the same statements as before (octacheck.inline); no-op on a
+        # tree without new helpers
+        self.inlined_helpers: dict[str, list[str]] = {}
+        if not os.environ.get("OCTACHECK_NO_INLINE"):
+            self._inline_new_helpers()
+        # locals the rules read by name are given their expected names in this parsed copy (octacheck.localnames); no-op on a
+        # tree that already uses them
+        from .localnames import canonicalise_module
+
+        self.renamed_locals = canonicalise_module(self.name, self.functions)
+
+    def _inline_new_helpers(self) -> None:
+        from .inline import inline_helpers, known_functions
+
+        known = known_functions().get(self.name)
+        if known is None:
+            return  # a module that did not exist: nothing is known about it, nothing is assumed
+        new = {q for q, f in self.functions.items() if q not in known and f.parent_func is None}
+        if not new:
+            return
+        new_names = {self.functions[q].name for q in new}
+        for q, fi in list(self.functions.items()):
+            if fi.parent_func is not None or q in new:
+                continue
+            if not any(isinstance(c, ast.Call) and ((isinstance(c.func, ast.Name) and c.func.id in new_names) or (isinstance(c.func, ast.Attribute) and c.func.attr in new_names)) for c in ast.walk(fi.node)):
+                continue
+            view, inl = inline_helpers(fi, lambda h, c, st: h.qualname in new)
+            if not inl:
+                continue
+            fn = fi.node
+            fn.body = view.node.body  # type: ignore[attr-defined]
+            for parent in ast.walk(fn):
+                for child in ast.iter_child_nodes(parent):
+                    child._parent = parent  # type: ignore[attr-defined]
+            # nested functions were copied with the body: point their FuncInfo at the copies
+            for sub in ast.walk(fn):
+                if sub is not fn and isinstance(sub, (ast.FunctionDef, ast.AsyncFunctionDef)):
+                    key = getattr(sub, "_qualname", None)
+                    if key in self.functions:
+                        self.functions[key].node = sub
+            self.inlined_helpers[q] = sorted(set(inl))
 
     # ------------------------------------------------------------------ index
     def _index(self) -> None:
@@ -497,7 +539,7 @@ def norm(node: ast.AST) -> str:
     return s if len(s) <= 160 else s[:157] + "..."
 
 
-def normalise_locals(fi: "FuncInfo", specs: list[tuple[str, Callable[[ast.AST], bool]]], loop_specs: list[tuple[tuple[str, ...], Callable[[ast.AST], bool]]] | None = None) -> "FuncInfo":
+def normalise_locals(fi: "FuncInfo", specs: list[tuple[str, Callable[[ast.AST], bool]]], loop_specs: list[tuple[tuple[str, ...], Callable[[ast.AST], bool]]] | None = None, finders: list[tuple[str, Callable[[ast.AST], "str | None"]]] | None = None) -> "FuncInfo":
     """alpha-normalisation for rules that read a function by the names of its locals: returns a copy of `fi` in which a local
     whose (single) definition satisfies a spec predicate is renamed to the spec's expected name, and the targets of a `for`
     loop whose iterable satisfies a loop spec are renamed to the expected names. The rules then match the normalised copy, so
@@ -531,6 +573,14 @@ def normalise_locals(fi: "FuncInfo", specs: list[tuple[str, Callable[[ast.AST], 
                             break
                     except Exception:  # noqa: BLE001
                         pass
+    # locals recognised by how they are USED (e.g. the list joined in the return): finder(function copy) -> current name
+    for expected, finder in finders or []:
+        try:
+            cur = finder(node)
+        except Exception:  # noqa: BLE001
+            cur = None
+        if cur:
+            rename(cur, expected)
     for names, pred in loop_specs or []:
         for n in list(walk_no_nested(node)):
             if isinstance(n, (ast.For, ast.AsyncFor)):
@@ -545,3 +595,15 @@ def normalise_locals(fi: "FuncInfo", specs: list[tuple[str, Callable[[ast.AST], 
                             rename(e.id, want)
                     break
     return FuncInfo(fi.module, fi.qualname, node, fi.cls, fi.parent_func)
+
+
+def joined_local(sep: "str | None"):
+    """finder for normalise_locals: the local passed to `<sep>.join(<local>)` (any constant separator when sep is None)"""
+    def find(fn: ast.AST) -> "str | None":
+        for n in walk_no_nested(fn):
+            if isinstance(n, ast.Call) and isinstance(n.func, ast.Attribute) and n.func.attr == "join" and isinstance(n.func.value, ast.Constant) and (sep is None or n.func.value.value == sep) and len(n.args) == 1 and isinstance(n.args[0], ast.Name):
+                return n.args[0].id
+        return None
+
+    return find
+
